@@ -15,7 +15,7 @@ open Hv.Beacon
 def ctOf : String → Option CT
   | "void" => some .void | "i8" => some .i8 | "i16" => some .i16 | "i32" => some .i32 | "i64" => some .i64
   | "u8" => some .u8 | "u16" => some .u16 | "u32" => some .u32 | "u64" => some .u64
-  | "f32" => some .f32 | "f64" => some .f64 | "str" => some .str | "bool" => some .bool
+  | "f32" => some .f32 | "f64" => some .f64 | "str" => some .str | "bool" => some .bool | "bytes" => some .bytes
   | _ => none
 
 def slotOf : String → Option Slot
@@ -23,6 +23,7 @@ def slotOf : String → Option Slot
   | s => match ctOf s with
     | some .void => none
     | some .bool => none
+    | some .bytes => none
     | some t => some (.value t)
     | none => none
 
@@ -53,7 +54,17 @@ def specOk (res : List Rec) (q : Query) (store : List Rec) : Bool :=
 def bsAllLt (cfg : Cfg) : Bool :=
   cfg.bsAscFrom == .lt && cfg.bsAscTo == .lt && cfg.bsDescTo == .lt && cfg.bsDescFrom == .lt
 
-def findingOf (cfg : Cfg) (q : Query) (store : List Rec) (causes : List String) : List String :=
+def metaOf : String → Option ExpMeta
+  | "-" => some .keep
+  | "clear" => some .clear
+  | s => s.toInt?.map (fun e => if e == 0 then .keep else .setTo e)
+
+/-- the list the read walks (after the build) -/
+def listOf (cfg : Cfg) (st : St) (q : Query) : List Rec :=
+  let p := (stepBuild cfg st q).pairs (phys cfg q.slot)
+  if q.asc then p.asc else p.desc
+
+def findingOf (cfg : Cfg) (q : Query) (store : List Rec) (causes : List String) (l : List Rec := []) : List String :=
   let stale (id : String) := if causes.isEmpty then [] else [id]
   let window := if q.slot.isTime && (q.fromT.isSome || q.toT.isSome) && !bsAllLt cfg then ["C07-window-bounds-operator"] else []
   let cold (f : Bool) := if !f && store.any (fun r => !carries q.slot r) then ["C07-cold-build-no-zero-filter"] else []
@@ -66,7 +77,11 @@ def findingOf (cfg : Cfg) (q : Query) (store : List Rec) (causes : List String) 
       (if causes.contains "update" then ["C07-value-update-stale"] else [])
   | .created => stale "C07-created-update-stale" ++ window ++ cold cfg.coldFilterCreated
   | .updated => stale "C07-updated-update-stale" ++ window ++ cold cfg.coldFilterUpdated
-  | .expire => stale "C07-expire-index-stale" ++ window ++ cold cfg.coldFilterExpire
+  | .expire =>
+    (if !cfg.refileGuardExpire && l.any (fun r => r.expire == 0) then ["C07-expire-cleared-refiled"] else []) ++
+    (if !cfg.patchExpiredReindexesAll && store.any (fun r => r.expire != 0 && !l.any (fun x => x.key == r.key))
+      then ["C07-patch-expired-partial-reindex"] else []) ++
+    stale "C07-expire-index-stale" ++ window ++ cold cfg.coldFilterExpire
   | .key => stale "C07-key-index-stale"
 
 def flagStr (fs : List String) : String := String.join (fs.map (fun f => "\t#F:" ++ f))
@@ -88,16 +103,74 @@ def step (d : DSt) (line : String) : DSt × String :=
     match dl.toInt?, e.toInt? with
     | some dl, some e => ({ d with s := stepInc d.cfg d.s k dl e }, "ok")
     | _, _ => (d, "bad-op")
+  | ["race", idx, ord] =>
+    match slotOf idx with
+    | none => (d, "bad-op")
+    | some sl =>
+      if ord != "asc" && ord != "desc" then (d, "bad-op") else
+      let q : Query := { slot := sl, asc := ord == "asc", from_ := 0, limit := 0, fromT := none, toT := none }
+      match answerSecond d.cfg d.s q, answer d.cfg d.s q with
+      | some r2, some r1 =>
+        let early := !(d.s.pairs (phys d.cfg q.slot)).init && !d.cfg.initialisedAfterFill
+        let s' := stepBuild d.cfg d.s q
+        let p := s'.pairs (phys d.cfg q.slot)
+        let d' := { d with s := s' }
+        if p.nd || p.broken then
+          (d', "nd" ++ flagStr (findingOf d.cfg q s'.store (if p.broken then "mixed" :: p.causes else p.causes) (if q.asc then p.asc else p.desc)))
+        else
+          let fl2 := if specOk r2 q s'.store then [] else
+            (if early then ["C07-first-readers-race"] else
+              match findingOf d.cfg q s'.store p.causes with | [] => ["C07-unexplained"] | fs => fs)
+          let fl1 := if specOk r1 q s'.store then [] else
+            (match findingOf d.cfg q s'.store p.causes with | [] => ["C07-unexplained"] | fs => fs)
+          (d', "r2=" ++ ",".intercalate (r2.map (·.key)) ++ " r1=" ++ ",".intercalate (r1.map (·.key)) ++ flagStr (fl2 ++ fl1).eraseDups)
+      | _, _ => (d, "r2=err noswamp r1=err noswamp")
   | ["shiftexp"] =>
     if d.s.store.isEmpty then (d, "err noswamp") else
     let l := shiftList d.cfg d.s
     let p := (stepBuild d.cfg d.s expireAll).pairs (phys d.cfg .expire)
     let d' := { d with s := stepShiftExpired d.cfg d.s }
-    if p.nd || p.broken then (d', "nd" ++ flagStr (findingOf d.cfg expireAll d.s.store p.causes))
+    if p.nd || p.broken then (d', "nd" ++ flagStr (findingOf d.cfg expireAll d.s.store p.causes p.asc))
     else
       let fl := if specOk l expireAll d.s.store then [] else
-        (match findingOf d.cfg expireAll d.s.store p.causes with | [] => ["C07-unexplained"] | fs => fs)
+        (match findingOf d.cfg expireAll d.s.store p.causes p.asc with | [] => ["C07-unexplained"] | fs => fs)
       (d', "r " ++ ",".intercalate (l.map (·.key)) ++ flagStr fl)
+  | ["patch", k, e] =>
+    match metaOf e with
+    | none => (d, "bad-op")
+    | some m =>
+      let rep := match findKey k d.s.store with
+        | none => "notfound"
+        | some o => if o.ct == .bytes then "patched" else if o.ct == .void then "notfound" else "mismatch"
+      ({ d with s := stepPatch d.cfg d.s k m }, rep)
+  | ["patchexp", e] =>
+    match metaOf e with
+    | none => (d, "bad-op")
+    | some m =>
+      if d.s.store.isEmpty then (d, "r ") else
+      let l := shiftList d.cfg d.s
+      let p := (stepBuild d.cfg d.s expireAll).pairs (phys d.cfg .expire)
+      let d' := { d with s := stepPatchExpired d.cfg d.s m }
+      if p.nd || p.broken then (d', "nd" ++ flagStr (findingOf d.cfg expireAll d.s.store p.causes p.asc))
+      else
+        let fl := if specOk l expireAll d.s.store then [] else
+          (match findingOf d.cfg expireAll d.s.store p.causes p.asc with | [] => ["C07-unexplained"] | fs => fs)
+        (d', "r " ++ ",".intercalate (l.map (·.key)) ++ flagStr fl)
+  | ["shiftmatch", idx, ord, lim, ft, tt] =>
+    match slotOf idx, lim.toNat?, optT ft, optT tt with
+    | some sl, some lim, some ft, some tt =>
+      if ord != "asc" && ord != "desc" then (d, "bad-op") else
+      let q : Query := { slot := sl, asc := ord == "asc", from_ := 0, limit := lim, fromT := ft, toT := tt }
+      if d.s.store.isEmpty then (d, "r ") else
+      let l := matchList d.cfg d.s q
+      let p := (stepBuild d.cfg d.s q).pairs (phys d.cfg q.slot)
+      let d' := { d with s := stepShiftMatch d.cfg d.s q }
+      if p.nd || p.broken then (d', "nd" ++ flagStr (findingOf d.cfg q d.s.store p.causes (listOf d.cfg d.s q)))
+      else
+        let fl := if specOk l q d.s.store then [] else
+          (match findingOf d.cfg q d.s.store p.causes (listOf d.cfg d.s q) with | [] => ["C07-unexplained"] | fs => fs)
+        (d', "r " ++ ",".intercalate (l.map (·.key)) ++ flagStr fl)
+    | _, _, _, _ => (d, "bad-op")
   | ["reload"] => ({ d with s := if d.s.store.isEmpty then d.s else stepReload d.s }, "ok")
   | ["q", idx, ord, fr, lim, ft, tt, _via] =>
     match slotOf idx, fr.toNat?, lim.toNat?, optT ft, optT tt with
@@ -111,11 +184,11 @@ def step (d : DSt) (line : String) : DSt × String :=
         let p := s'.pairs (phys d.cfg q.slot)
         let d' := { d with s := s' }
         if p.nd || p.broken then
-          (d', "nd" ++ flagStr (findingOf d.cfg q s'.store (if p.broken then "mixed" :: p.causes else p.causes)))
+          (d', "nd" ++ flagStr (findingOf d.cfg q s'.store (if p.broken then "mixed" :: p.causes else p.causes) (if q.asc then p.asc else p.desc)))
         else
           let ok := specOk res q s'.store
           let fl := if ok then [] else
-            (match findingOf d.cfg q s'.store p.causes with
+            (match findingOf d.cfg q s'.store p.causes (if q.asc then p.asc else p.desc) with
              | [] => ["C07-unexplained"]
              | fs => fs)
           (d', "r " ++ ",".intercalate (res.map (·.key)) ++ flagStr fl)
@@ -139,7 +212,9 @@ def run (args : List String) : IO UInt32 := do
     updRefreshCreated := yes kv "updRefreshCreated", updRefreshUpdated := yes kv "updRefreshUpdated",
     updRefreshValue := yes kv "updRefreshValue", updRefreshExpireOnFlag := yes kv "updRefreshExpireOnFlag",
     typeChangeDetected := yes kv "typeChangeDetected", valueShared := yes kv "valueShared",
-    flagsSticky := yes kv "flagsSticky", setVoidClearsTyped := yes kv "setVoidClearsTyped" }
+    flagsSticky := yes kv "flagsSticky", setVoidClearsTyped := yes kv "setVoidClearsTyped",
+    initialisedAfterFill := yes kv "initialisedAfterFill", refileGuardExpire := yes kv "refileGuardExpire",
+    patchExpiredReindexesAll := yes kv "patchExpiredReindexesAll" }
   lineLoop step { cfg := cfg, s := St.init }
   return 0
 
